@@ -5,8 +5,10 @@
 
   * `apply` is the sequential specification: what each call does and returns when it runs alone.
   * the code: every registry call is ONE atomic step (its whole body runs inside the critical section — lock-set
-    table, C14.c14_racefree) and so are Config() and SetConfig(nil); SetConfig(cfg) is TWO atomic steps, the
-    `globalConfig.Load()` and, later, the `globalConfig.Store(merge(loaded, cfg))` (`Act.load` / `Act.store`).
+    table, C14.c14_racefree) and so are Config() and SetConfig(nil); SetConfig(cfg) is `globalConfig.Load()` and,
+    later, `globalConfig.CompareAndSwap(loaded, merge(loaded, cfg))`, repeated until the swap succeeds
+    (`Act.load` / `Act.casStore`; since /repo d02a8cd).  Before that fix the second step was an unconditional
+    `Store` (`Act.store`, kept as the legacy definition the lost-update witness is about).
   * histories: calls with invocation and response times; `search` looks for a linearization against `apply`
     (sound and complete: C14.search_sound / search_complete); the driver runs it on histories recorded from the
     real code.
@@ -90,8 +92,8 @@ def Op.key : Op → Option Nat
 inductive Act
   | atomic (tid : Nat) (op : Op)          -- a call whose body is one critical section / one atomic access
   | load (tid : Nat)                      -- SetConfig: current := globalConfig.Load()
-  | store (tid : Nat) (c l : Nat)         -- SetConfig: globalConfig.Store(merge(current, cfg)); returns the merge
-  | casStore (tid : Nat) (c l : Nat)      -- the repaired SetConfig: CompareAndSwap(current, merge(current, cfg)),
+  | store (tid : Nat) (c l : Nat)         -- legacy SetConfig: globalConfig.Store(merge(current, cfg)); returns the merge
+  | casStore (tid : Nat) (c l : Nat)      -- SetConfig: CompareAndSwap(current, merge(current, cfg)),
                                           -- a failed swap reloads (the step is then only a `load`)
 deriving DecidableEq, Repr
 
